@@ -67,7 +67,24 @@ impl ServerState {
   /// - Global context updated
   /// - Dependency graph updated
   /// - recheck_set is the conservative estimate of moduled need to recheck
-  fn recheck(&mut self, mut error_set: ErrorSet, recheck_set: &HashSet<ModuleReference>) {
+  /// - reparsed_set is the set of modules whose syntax errors are already in error_set
+  fn recheck(
+    &mut self,
+    mut error_set: ErrorSet,
+    recheck_set: &HashSet<ModuleReference>,
+    reparsed_set: &HashSet<ModuleReference>,
+  ) {
+    // Modules that are rechecked without being parsed again keep their syntax errors.
+    for mod_ref in recheck_set {
+      if reparsed_set.contains(mod_ref) || !self.parsed_modules.contains_key(mod_ref) {
+        continue;
+      }
+      for e in self.errors.get(mod_ref).into_iter().flatten() {
+        if let samlang_errors::ErrorDetail::InvalidSyntax(reason) = &e.detail {
+          error_set.report_invalid_syntax_error(e.location, reason.clone());
+        }
+      }
+    }
     // Type Checking (parallel)
     let parsed_modules = &self.parsed_modules;
     let global_cx = &self.global_cx;
@@ -140,17 +157,19 @@ impl ServerState {
       self.parsed_modules.insert(mod_ref, parsed);
     }
     self.dep_graph = DependencyGraph::new(&self.parsed_modules);
-    let recheck_set = self.dep_graph.affected_set(initial_update_set);
-    self.recheck(error_set, &recheck_set);
+    let recheck_set = self.dep_graph.affected_set(initial_update_set.clone());
+    self.recheck(error_set, &recheck_set, &initial_update_set);
   }
 
   pub fn rename_module(&mut self, renames: Vec<(ModuleReference, ModuleReference)>) {
     let mut error_set = ErrorSet::new();
+    let mut reparsed_set = HashSet::new();
     let recheck_set = self
       .dep_graph
       .affected_set(renames.iter().flat_map(|(a, b)| vec![*a, *b].into_iter()).collect());
     for (old_mod_ref, new_mod_ref) in renames {
       if let Some(source) = self.string_sources.remove(&old_mod_ref) {
+        reparsed_set.insert(new_mod_ref);
         self.parsed_modules.remove(&old_mod_ref).unwrap();
         let parsed = samlang_parser::parse_source_module_from_text(
           &source,
@@ -166,7 +185,7 @@ impl ServerState {
       self.checked_modules.remove(&old_mod_ref);
     }
     self.dep_graph = DependencyGraph::new(&self.parsed_modules);
-    self.recheck(error_set, &recheck_set);
+    self.recheck(error_set, &recheck_set, &reparsed_set);
   }
 
   pub fn remove(&mut self, module_references: &[ModuleReference]) {
@@ -178,7 +197,7 @@ impl ServerState {
       self.global_cx.remove(mod_ref);
     }
     self.dep_graph = DependencyGraph::new(&self.parsed_modules);
-    self.recheck(ErrorSet::new(), &recheck_set);
+    self.recheck(ErrorSet::new(), &recheck_set, &HashSet::new());
   }
 }
 
